@@ -117,10 +117,11 @@ class InputDataStorage:
 
         elif args.read_assignments is not None:
             self.input_type = "save"
-            illumina_bam = [[]]
+            illumina_bam = []
             for i, save_file in enumerate(args.read_assignments):
                 sample_files.append([[save_file]])
                 experiment_names.append(self.experiment_prefix + str(i))
+                illumina_bam.append([])
         
         elif args.yaml is not None:
             sample_files, experiment_names, readable_names_dict, illumina_bam = self.get_samples_from_yaml(args.yaml)
